@@ -152,6 +152,7 @@ def run(c):
         key = json.dumps(cfg, sort_keys=True)
         by_cfg.setdefault(key, (cfg, []))[1].append(host)
     items = list(by_cfg.values())
+    n_cfg = len(items)
     if q and len(items) > 1500:
         items = rnd.sample(items, 1500)
     records = []
@@ -208,8 +209,9 @@ def run(c):
     c.extra["stage_clock"] = stage
     c.extra["clauses_seen"] = seen
     c.extra["replayed_configs"] = n_rp
-    c.extra["exhaustive"] = True
+    c.extra["exhaustive"] = n_cfg == n_rp      # the model checking is exhaustive; the replay only if no config was sampled out
+    c.extra["enumerated_configs"] = n_cfg
     c.rule = ("every config TLC builds from the header universe (Host with wildcard/negated patterns, Match all/final/originalhost[/host/user]) x body "
-              "universe (repeated keys, ProxyCommand none, IdentityFile lists, tokens) with <= 2 explicit blocks x 3 names, rendered and run through SSHConfig; "
+              "universe (repeated keys, ProxyCommand none, IdentityFile lists, tokens) with <= 2 explicit blocks x 3 names (quick tier: a seeded sample of 1500 of these configs), rendered and run through SSHConfig; "
               "+ seeded random configs of 1-12 blocks x 3 names with spelling/spacing variants; distinct = distinct (config text, hostname)")
     c.assumptions = ["POSIX fnmatch semantics; patterns use only * and ?", "the local user/home/hostname/fqdn do not change during the run"]
